@@ -390,17 +390,63 @@ def check_c07(ctx):
     check_history(ctx, extra_step=c07_enumeration)
 
 
+def limit_scenario_part(ctx, bins, cov, words, sig, what):
+    """Runs the capacity-limit scenario (an archetype filled to 2^24 entities, then cloned) and
+    reports only the failures whose message contains one of `words`: the part of the scenario that
+    belongs to this property (the rest is C12's)."""
+    work = os.path.join(VERIF, ".work", "%s-b-%d" % (ctx.prop, os.getpid()))
+    os.makedirs(work, exist_ok=True)
+    start = (1 << 24) - 3
+    try:
+        jobs = [((name,), [bins[name], "boundary", "--world", "WOne", "--start", str(start), "--fail-out", os.path.join(work, "%s.boundary" % name)]) for name in ("chk", "rel") if name in bins]
+        ran = 0
+        for (name,), (rc, out) in sorted(run_many(jobs, 1800).items()):
+            if rc is None or rc in (-9, 137):
+                raise Inconclusive("capacity-limit scenario timed out or was killed")
+            ran += 1
+            if rc == 0:
+                continue
+            msg = " ".join(parse_line(l).get("msg", "") for l in out.splitlines() if l.startswith("FAIL "))
+            if rc == 1 and not any(w in msg for w in words):
+                continue  # another part of the scenario fails: C12 reports that
+            if rc != 1 and ctx.prop != "C13":
+                continue  # a crash of the scenario process is reported by C12 (and by C13: the clone is its last step)
+            dst = os.path.join(found_dir(ctx.prop), "%s-%s.boundary" % (sig, name))
+            with open(dst, "w") as f:
+                f.write("# property %s\n# %s\nworld WOne\nboundary %d\n" % (ctx.prop, msg or "process died with status %s" % rc, start))
+            report_failure(ctx, sig, dst, "[%s] %s" % (name, msg or "the scenario process died with status %s: %s" % (rc, out[-300:])))
+        cov[what] = ran
+        cov["evaluations"] += ran
+    finally:
+        shutil.rmtree(work, ignore_errors=True)
+
+
+def c13_clone_at_limit(ctx, bins, cov):
+    """C13 at the capacity limit: the scenario ends with `clone()` and `clone_from()` of the world
+    whose archetype holds 2^24 entities."""
+    limit_scenario_part(ctx, bins, cov, ("clon",), "clone-at-capacity-limit", "clone_at_capacity_limit_scenarios")
+
+
 def check_history_fuzz(ctx):
     """History check whose thorough tier adds a libFuzzer / ASan campaign."""
     def extra(c, b, cov):
+        if c.prop == "C13":
+            c13_clone_at_limit(c, b, cov)
+        if c.tier != "thorough":
+            return
         fuzz_campaign(c, b, cov)
         if c.prop == "C04":
             miri_sample(c, cov)
 
+    if ctx.prop == "C13" and ctx.replay and ctx.replay.endswith(".boundary"):
+        cov = {"evaluations": 0, "distinct_nontrivial": 2, "rule": "replay of the clone-at-the-capacity-limit scenario", "samples": [open(ctx.replay).read()]}
+        c13_clone_at_limit(ctx, {"chk": build_harness("chk"), "rel": build_harness("rel")}, cov)
+        write_evidence(ctx, "exploration", cov, HIST_ASSUMPTIONS)
+        return
     # C13: the clone's buffers (ASan: a clone refilled to capacity writes into what it allocated) and
     # its pending events (events build) are part of "observationally identical"
     extra_bins = (lambda: {"asan": build_harness_asan(), "chk-events": build_harness("chk", ("events",))}) if ctx.prop == "C13" else None
-    check_history(ctx, extra_step=extra if ctx.tier == "thorough" else None, extra_bins=extra_bins)
+    check_history(ctx, extra_step=extra if (ctx.tier == "thorough" or ctx.prop == "C13") else None, extra_bins=extra_bins)
 
 
 HIST_RULES["C17"] = "histories (harness built with feature events) with both creation paths incl. refused create_within_capacity, all four destroy key kinds at both levels, ecs_iter_destroy!, destroys of stale handles, per-archetype and world-level clear_events at arbitrary points, clones; after every step the per-archetype and world-level event iterators are compared (as multisets) with the model's logs and size_hint is checked before every next(); non-trivial = an observation with >= 2 archetypes with non-empty and >= 1 with empty logs, plus a destroy through a dynamic key or ecs_iter_destroy!, plus a clear; distinct = hash of the decoded op list"
@@ -731,7 +777,7 @@ PROG_RULES = {
 }
 
 
-def run_engine_m(ctx, pg, prop):
+def run_engine_m(ctx, pg, prop, pg_alt=None):
     qs, qc, ts, tc, nq = M_BUDGET[prop]
     shards, cases = (qs, qc) if ctx.tier == "quick" else (ts, tc)
     work = os.path.join(VERIF, ".work", "%s-m-%d" % (prop, os.getpid()))
@@ -740,7 +786,9 @@ def run_engine_m(ctx, pg, prop):
     for s in range(shards):
         base = os.path.join(work, "m-%d" % s)
         seed = ctx.sub_seed("m", s)
-        jobs.append(((s, seed), [pg, "m", "--prop", prop, "--cases", str(cases), "--seed", str(seed), "--queries", str(nq), "--out", base + ".json", "--fail-out", base + ".pcase"]))
+        # every fourth shard runs the generators as built with the macro crate's `events` feature
+        b = pg_alt if (pg_alt and s % 4 == 3) else pg
+        jobs.append(((s, seed), [b, "m", "--prop", prop, "--cases", str(cases), "--seed", str(seed), "--queries", str(nq), "--out", base + ".json", "--fail-out", base + ".pcase"]))
     res = run_many(jobs, 7200)
     agg = {"cases": 0, "world_checks": 0, "query_checks": 0, "expansions_scanned": 0, "excluded": 0, "hashes": set(), "labels": {}, "samples": []}
     try:
@@ -903,8 +951,15 @@ def check_program_prop(ctx):
     if ctx.replay:
         write_evidence(ctx, "exploration", {"evaluations": nrep, "distinct_nontrivial": 2, "rule": "replay of saved inputs only", "samples": [open(ctx.replay).read()]}, PROG_ASSUMPTIONS)
         return
-    m = run_engine_m(ctx, pg, prop)
+    pg_ev = farm.build_pg(("events",))
+    m = run_engine_m(ctx, pg, prop, pg_alt=pg_ev)
     p = run_engine_p(ctx, pg, prop)
+    if prop == "C18":
+        # the same negative / twin corpus against gecs built with `events` (the generated event
+        # iterators live in the user crate and fall under its forbid(unsafe_code) as well)
+        pe = run_engine_p(ctx, pg, prop, emit_args=["--pairs", "80"], features=("events",))
+        p["under_events"] = {k: pe[k] for k in ("jobs", "reject_ok", "accept_ok", "pairs_ok")}
+        p["jobs"] += pe["jobs"]
     nontrivial = len(m["hashes"]) + p["pairs_ok"] + (p["run_ok"] if prop != "C18" else 0)
     cov = {
         "evaluations": m["world_checks"] + m["query_checks"] + p["jobs"],
@@ -947,6 +1002,9 @@ fn main() {
     println!("{} {} {} {}", a, b, c, world.iter_created().count());
 }
 """, "events"),
+    # the maximum of 256 archetypes: the generated world-level event iterator walks all of them
+    # (run, not only compiled: opt-level 0, so overflow checks and debug assertions are on)
+    "events_256": ("GENERATED", "events"),
     "comps_16": (None, None),
     "comps_17": (None, "32_components"),
     "comps_32": (None, "32_components"),
@@ -962,6 +1020,35 @@ def _comps_program(n):
             % (decls, ", ".join(names), vals, names[0], names[-1]))
 
 
+def _archs256_program():
+    archs = "\n".join("    ecs_archetype!(Arch%03d, CompA);" % i for i in range(256))
+    return ("""#![forbid(unsafe_code)]
+#![allow(warnings)]
+use gecs::prelude::*;
+pub struct CompA(pub u64);
+ecs_world! {
+%s
+}
+fn main() {
+    let mut world = EcsWorld::new();
+    let first = world.create::<Arch000>((CompA(1),));
+    let last = world.create::<Arch255>((CompA(2),));
+    let mid = world.create::<Arch128>((CompA(4),));
+    world.destroy(mid);
+    let c: Vec<u8> = world.iter_created().map(|e| e.archetype_id()).collect();
+    let d: Vec<u8> = world.iter_destroyed().map(|e| e.archetype_id()).collect();
+    let fused = {
+        let mut it = world.iter_created();
+        while it.next().is_some() {}
+        it.next().is_none() && it.size_hint() == (0, Some(0))
+    };
+    let mut sum = 0u64;
+    ecs_iter!(world, |c: &CompA| { sum += c.0; });
+    println!("{:?} {:?} {} {} {} {}", c, d, fused, sum, first.archetype_id(), last.archetype_id());
+}
+""" % archs, "[0, 128, 255] [128] true 3 0 255\n")
+
+
 def c19_feature_programs(ctx):
     """Documented deltas: compiled under every feature set that matters."""
     import farm
@@ -974,11 +1061,19 @@ def c19_feature_programs(ctx):
         try:
             jobs = []
             for name, (src, needs) in C19_PROGRAMS.items():
+                expected = None
                 if src is None:
                     src = _comps_program(int(name.split("_")[1]))
+                elif src == "GENERATED":
+                    src, expected = _archs256_program()
                 with open(os.path.join(work, name + ".rs"), "w") as f:
                     f.write(src)
                 must_compile = needs is None or needs in feats
+                if must_compile and expected is not None:
+                    with open(os.path.join(work, name + ".expect"), "w") as f:
+                        f.write(expected)
+                    jobs.append({"id": "C19-%s-%s" % (name, "+".join(feats) or "default"), "kind": "run", "file": name + ".rs", "flags": [], "expect": name + ".expect", "note": "features %s" % (list(feats),)})
+                    continue
                 jobs.append({"id": "C19-%s-%s" % (name, "+".join(feats) or "default"), "kind": "accept" if must_compile else "reject", "file": name + ".rs", "flags": [],
                              "expect": "E0599|E0412|E0433|E0405|cannot find|no method", "note": "features %s" % (list(feats),)})
             for r in farm.run_jobs(jobs, work, rlib, deps):
@@ -987,7 +1082,7 @@ def c19_feature_programs(ctx):
                     dst = os.path.join(found_dir("C19"), r["id"])
                     os.makedirs(dst, exist_ok=True)
                     shutil.copyfile(os.path.join(work, r["file"]), os.path.join(dst, r["file"]))
-                    what = "compiles although the feature that documents it is off" if r["kind"] == "reject" else "does not compile although its feature is on: %s" % r.get("why", "")
+                    what = "compiles although the feature that documents it is off" if r["kind"] == "reject" else "does not compile or run as documented although its feature is on: %s" % r.get("why", "")
                     report_failure(ctx, "feature-delta", dst, "[features %s] %s %s" % (r["note"], r["file"], what))
         finally:
             shutil.rmtree(work, ignore_errors=True)
@@ -1233,6 +1328,11 @@ def check_c08(ctx):
         write_evidence(ctx, "exploration", {"evaluations": 1, "distinct_nontrivial": 2, "rule": "replay of one saved program", "samples": [r.get("file", "")]}, PROG_ASSUMPTIONS)
         return
     bins = {"chk": build_harness("chk"), "rel": build_harness("rel")}
+    if ctx.replay and ctx.replay.endswith(".boundary"):
+        cov = {"evaluations": 0, "distinct_nontrivial": 2, "rule": "replay of the fill-to-the-capacity-limit scenario", "samples": [open(ctx.replay).read()]}
+        limit_scenario_part(ctx, bins, cov, ("already issued", "unexpected handle"), "reissue-while-filling-to-the-limit", "fill_to_capacity_limit_scenarios")
+        write_evidence(ctx, "exploration", cov, HIST_ASSUMPTIONS)
+        return
     extra = [ctx.replay] if ctx.replay else []
     nfiles, _ = run_replays(ctx, bins, extra)
     if ctx.replay:
@@ -1271,6 +1371,9 @@ def check_c08(ctx):
     cov["archetype_id_collision_programs"] = {k: v for k, v in p.items() if k != "samples"}
     cov["real_cycles_without_hook"] = [l for l in cout.splitlines() if l.startswith("STATS")]
     cov["evaluations"] += 1
+    # every one of the 2^24 creations that fill an archetype to the limit returns a position not
+    # handed out before (growth clamped at the limit included)
+    limit_scenario_part(ctx, bins, cov, ("already issued", "unexpected handle"), "reissue-while-filling-to-the-limit", "fill_to_capacity_limit_scenarios")
     write_evidence(ctx, "exploration", cov, HIST_ASSUMPTIONS + ["rustc for the declaration-level part"])
 
 
